@@ -96,3 +96,44 @@ func wordSpecs(g *Gram, in GInput, ws [][]int, errPos bool) string {
 	}
 	return strings.Join(parts, " ")
 }
+
+// xinfoStr serialises what the extended runtime model needs beyond the tables
+// (lean/TmVerif/Model/LRXProto.lean): `<rules> <fixWhitespace> <recovering> <errSym> <afterErr> <cancellable>`.
+func xinfoStr(gp *GenParser) string {
+	g := gp.G
+	p := g.Parser
+	var rules []string
+	for _, r := range p.Rules {
+		ty := 0
+		if r.Type >= 0 {
+			ty = r.Type + 1
+		}
+		fw := g.Options.FixWhitespace && g.HasTrailingNulls(*r) && !g.Options.TokenStream
+		reps := "-"
+		if r.Action != 0 && r.Action < len(p.Actions) {
+			var rs []string
+			for _, rep := range p.Actions[r.Action].Report {
+				rs = append(rs, fmt.Sprintf("%d:%d:%d", rep.Type+1, rep.Start, rep.End))
+			}
+			if len(rs) > 0 {
+				reps = strings.Join(rs, ",")
+			}
+		}
+		rules = append(rules, fmt.Sprintf("%d/%s/%s", ty, b2s(fw), reps))
+	}
+	rs := "_"
+	if len(rules) > 0 {
+		rs = strings.Join(rules, ";")
+	}
+	var afterErr []int
+	for _, s := range g.Sets {
+		if s.Name == "afterErr" {
+			afterErr = s.Terminals
+		}
+	}
+	errSym := -1
+	if p.IsRecovering {
+		errSym = p.ErrorSymbol
+	}
+	return fmt.Sprintf("%s %s %s %d %s %s", rs, b2s(g.Options.FixWhitespace), b2s(p.IsRecovering), errSym, ints(afterErr), b2s(g.Options.Cancellable))
+}
